@@ -16,7 +16,7 @@ from typing import Dict, Iterable, List, Optional, Sequence, Tuple
 
 from ..flow import depends_on_param
 from ..model import AnalysisError
-from .common import bound_args, norm, where
+from .common import source_order, bound_args, norm, where
 
 _HERE = os.path.dirname(os.path.dirname(os.path.dirname(os.path.abspath(__file__))))
 SKIP = ('vis.', 'test.', 'io.petnames', 'util.vis_utils')
@@ -706,7 +706,8 @@ def loop_state(ctx, obs, prefixes: Sequence[str], rule='LOOP-STATE') -> int:
                 # allocated outside this loop only
                 if any(any(a is x for x in inside) for a in allocs):
                     continue
-                if not any(a.lineno < lp.lineno for a in allocs):
+                _so = source_order(f.node)
+                if not any(_so.get(id(a), 0) < _so.get(id(lp), 0) for a in allocs):
                     continue
                 stores = [s for s in inside if isinstance(s, (ast.Assign, ast.AugAssign))
                           and isinstance((s.targets[0] if isinstance(s, ast.Assign) else s.target), ast.Subscript)
